@@ -563,7 +563,7 @@ func runC03(r *rt.Runner) {
 			c.Feature("c03:systematic")
 		})
 	}
-	for b := 0; b < r.Scale(100, 3000); b++ {
+	for b := 0; b < r.Scale(100, 2000); b++ {
 		r.Do(fmt.Sprintf("sink/rand/%d", b), func(c *rt.C) {
 			env := sinkEnv()
 			rng := c.Rand()
@@ -578,7 +578,7 @@ func runC03(r *rt.Runner) {
 			}
 		})
 	}
-	for b := 0; b < r.Scale(200, 5000); b++ {
+	for b := 0; b < r.Scale(200, 3500); b++ {
 		r.Do(fmt.Sprintf("model/%d", b), func(c *rt.C) {
 			rng := c.Rand()
 			model := randomModel(rng, fmt.Sprintf("verif.gen%d.v1", b))
@@ -632,7 +632,7 @@ func runC03(r *rt.Runner) {
 		}
 		c.Feature("c03:query-single")
 	})
-	for b := 0; b < r.Scale(60, 1500); b++ {
+	for b := 0; b < r.Scale(60, 1000); b++ {
 		r.Do(fmt.Sprintf("query/rand/%d", b), func(c *rt.C) {
 			env := queryEnv()
 			rng := c.Rand()
